@@ -605,7 +605,7 @@ def _c12_extra(tier, seed, native_run):
 
 EXTRA_TIERS['C12'] = _c12_extra
 GAPS['C12'] = ['truncation error for non-polynomial functions: BOUNDED tier only (smooth test functions, tolerance proportional to the step)', 'coloured approximation equals uncoloured (ApproximationScheme._init_colored_approximations / _colored_column_iter): BOUNDED tier only',
-               'step_calc=rel_element and directional options of _get_approx_data', 'compute_approx_col_iter generator (save / finally restore of FD mode)',
+               'directional options of _get_approx_data callers (step_calc=rel_element itself is proved)', 'compute_approx_col_iter generator (save / finally restore of FD mode)',
                'ComplexStep: outputs/residuals after a point, nested complex-step fallback to FD', 'approximated totals (group level), semi-total colourings']
 
 
